@@ -577,8 +577,9 @@ class OrderedMultiDict(dict):
             superself_iteritems = super().iteritems()
         except AttributeError:
             superself_iteritems = super().items()
-        # (not reverse) because they pop off in reverse order for reinsertion
-        sorted_val_map = {k: sorted(v, key=key, reverse=(not reverse))
+        # [::-1] because they pop off in reverse order for reinsertion
+        # (reversing the sorted list keeps the sort stable)
+        sorted_val_map = {k: sorted(v, key=key, reverse=reverse)[::-1]
                                for k, v in superself_iteritems}
         ret = self.__class__()
         for k in self.iterkeys(multi=True):
